@@ -3,8 +3,33 @@
 import json, subprocess
 ALL = [json.loads(l)['id'] for l in open('/verif/properties.jsonl')]
 hooks_commits = subprocess.run(['git','-C','/repo','log','--format=%h %s'],capture_output=True,text=True).stdout.splitlines()
-hook_commits = [l.split()[0] for l in hooks_commits if l.split(' ',1)[1].startswith('verif hook')]
+hook_commits = [l.split()[0] for l in hooks_commits if 'verif hook' in l]
 CHECKS = {
+ "C10": dict(engine="netprop", cat="exploration", design="§5 C10",
+   technique="property-based testing / structured fuzzing in layers: valid encodings of all 56 wire types mutated by a schema-aware extremiser; generated frames, noise garbage, raw multiplexer frames and malformed RPC sub-streams against the real code on a deterministic runtime, with per-case panic capture",
+   text="Every layer that parses peer-controlled bytes (decoders, length-prefixed frames, noise, multiplexer, RPC) is driven with generated hostile input; a panic, a hang at end-of-input, a read beyond the size limit or a wedged connection is a violation with a replayable input.",
+   note="A caught panic stands for a process abort (the repository builds with panic=abort). Overflow-check panics are dev-profile only and are labelled so. Consensus-handler and live-node layers are added by the simulator / live parts."),
+ "C13": dict(engine="netprop", cat="exploration", design="§5 C13",
+   technique="property-based testing of the real noise stream over a harness-owned scripted transport (fragmentation, Pending, back-pressure) with a prefix / flush / EOF oracle and single-point ciphertext tampering",
+   text="Write programs x transport scripts x tampers; clean runs are judged at quiescence (no deadlock, flushed bytes arrived, only a prefix of what was written, EOF exactly after shutdown, well-formed frames), tampered runs must deliver only a correct prefix and then fail or end.",
+   note="ChaCha20-Poly1305 / snow are trusted; the check is about the stream layer around them."),
+ "C14": dict(engine="netprop", cat="exploration", design="§5 C14",
+   technique="stateful property-based testing: generated multi-session workloads on two real multiplexers over a scripted pipe with self-identifying payloads (isolation / order / completeness / limits / deadlock oracle at quiescence), plus a raw non-cooperative peer for the flow-control bound",
+   text="Cross-talk, loss, reordering, early or missing end-of-stream, exceeded stream limits, deadlocks of cooperative programs and unbounded buffering under a flood are all observable violations.",
+   note="Completeness is asserted only for programs whose readers run concurrently with their writers (head-of-line blocking is documented). Zero-length DATA frames hold no memory and are outside the byte bound."),
+ "C15": dict(engine="netprop", cat="exploration", design="§5 C15",
+   technique="stateful property-based testing on a manual clock: acquire/cancel/release/advance programs against the real limiter (window bound, FIFO, held <= burst, starvation-freedom, metamorphic removal of instantly-abandoned waits); generated client workloads against the real rpc::Service",
+   text="Grant events of the limiter and request-start events of the real RPC service are checked against burst + T/r + 1 for every window, and concurrent handlers / sub-streams against the in-flight limit.",
+   note="Time is the manual clock; a grant is the return of acquire / the server's OPEN frame."),
+ "C18": dict(engine="netprop", cat="exploration", design="§5 C18",
+   technique="model-based property testing: generated announcement batches against a reference map with whole-batch atomicity plus model-free invariants; metamorphic convergence of two delivery orders",
+   text="After every batch the real address book equals the model, holds only members' verifying announcements, replaces only by strictly newer ones, is unchanged by refused batches; two orderings of the same honest announcements converge.",
+   note="BLS unforgeability is trusted."),
+ "C19": dict(engine="netprop", cat="exploration", design="§5 C19",
+   technique="stateful property-based testing of the real fetch queue on a deterministic runtime with a quiescence barrier after every operation and a set model (conservation, single holder, lowest-first, announced-only, lost-wake-up detection)",
+   text="Requests, peer announcements, accepts, successes, failures, disconnects and cancellations in generated orders; each step is judged against the model, including deterministic detection of lost wake-ups.",
+   note="Concurrent requests for one block number are documented as unsupported and not generated. The fetcher / peer path of a live node is a separate (socket-based) part."),
+
  "C02": dict(engine="rolesprop", cat="exploration", design="§5 C02",
    technique="property-based testing: small-scope exhaustive enumeration + proptest generation of abstract timeout certificates against the statement's safety oracle; differential against the stand-alone re-proposal rules",
    text="Decision function get_implied_block judged on every timeout certificate of a bounded scope (committees <= 5/6 validators, weights <= 3, every B, Q, S and role-constrained report combination) and on random larger ones; a violation is a concrete certificate that would let a certified block be displaced.",
@@ -48,6 +73,7 @@ m={"version":1,"setup_cmd":"./setup.sh",
           "source_commits":hook_commits,"add_only":True},
  "engines":[
    {"name":"rolesprop","path":"harness/rolesprop","serves_properties":["C02","C04","C07","C09","C11"],"kind_free_text":"proptest + hand-written enumerators over pure functions of the roles/protobuf crates"},
+   {"name":"netprop","path":"harness/netprop","serves_properties":["C10","C13","C14","C15","C18","C19"],"kind_free_text":"proptest-generated programs driving the real network-crate components (through the verif hook) on a deterministic single-thread tokio runtime with paused time, manual clock and a scripted in-memory transport"},
  ],
  "checks":checks,
  "notes":"Driver: ./check <Cxx> quick|thorough|--replay <file>. Exit 0 held / 1 VIOLATION / 2 inconclusive. Known findings: known_findings.json. Sensitivity protocol: mutants/.",
